@@ -5,8 +5,8 @@
   after `align_tracks`), for every style, child styles, input and oracle.
 
   The program calls `place_grid_items` on the in-flow children with their indices in the child list (`inFlowOf`), starting
-  from the occupancy matrix of the size estimate over all box-generating children (`boxChildrenOf`, absolutely positioned
-  ones included — known finding 10); the invariants of Lemmas/GridPlacement*.lean hold for any start matrix and any indexed
+  from the occupancy matrix of the size estimate over the box-generating children that are not absolutely positioned
+  (`boxChildrenOf`; absolutely positioned ones were included before the repair of finding 10); the invariants of Lemmas/GridPlacement*.lean hold for any start matrix and any indexed
   child list, which is what is used here (`GridPlacement.run`, the subject of Props/C08.lean, is the special case of a child
   list without hidden or absolutely positioned children).
 -/
